@@ -123,36 +123,43 @@ RECURSIVE Cumul(_, _)
 Cumul(p, i) == IF i = 0 THEN <<>> ELSE
                LET c == Cumul(p, i - 1) IN Append(c, (IF i = 1 THEN 0 ELSE c[i - 1]) + p[i])
 Ends(pieces) == Cumul(pieces, Len(pieces))
-RECURSIVE WriteWalk(_, _, _, _, _)
-WriteWalk(total, ends, s, off, i) ==
+\* Ok(0) from the writer: the statement and tiny-std's docs do not say what write_all does
+\* then.  Both readings are admitted: stop with an error (std's WriteZero; what the code does),
+\* or try again (zeroStops = FALSE).
+RECURSIVE WriteWalk(_, _, _, _, _, _)
+WriteWalk(total, ends, s, off, i, zeroStops) ==
     IF off = total THEN [err |-> 0, off |-> off]
     ELSE IF i > Len(s) THEN [err |-> 0, off |-> total]
     ELSE LET it == s[i]
              offered == PieceEnd(ends, 1, off) - off
-         IN  CASE it.t = "a"     -> WriteWalk(total, ends, s, off + Min(it.k, offered), i + 1)
-               [] it.t = "zero"  -> [err |-> NOCODE, off |-> off]
-               [] it.t = "eintr" -> WriteWalk(total, ends, s, off, i + 1)
+         IN  CASE it.t = "a"     -> WriteWalk(total, ends, s, off + Min(it.k, offered), i + 1, zeroStops)
+               [] it.t = "zero"  -> IF zeroStops THEN [err |-> NOCODE, off |-> off]
+                                    ELSE WriteWalk(total, ends, s, off, i + 1, zeroStops)
+               [] it.t = "eintr" -> WriteWalk(total, ends, s, off, i + 1, zeroStops)
                [] it.t = "err"   -> [err |-> it.k, off |-> off]
 \* ff = 1: a Display impl reports fmt::Error after the last fragment (write_fmt only): if the
 \* writer took everything, write_fmt still fails, with an error that has no OS code.
+WriteMatches(o, data, w, ff) ==
+    /\ o.buf = SubSeq(data, 1, w.off)
+    /\ IF w.err = NOCODE THEN o.err # 0
+       ELSE IF w.err = 0 /\ ff = 1 THEN o.err = NOCODE
+       ELSE o.err = w.err
 WriteOK(o, data, pieces, s, ff) ==
-    LET w == WriteWalk(Len(data), Ends(pieces), s, 0, 1)
-    IN  /\ o.buf = SubSeq(data, 1, w.off)
-        /\ IF w.err = NOCODE THEN o.err # 0
-           ELSE IF w.err = 0 /\ ff = 1 THEN o.err = NOCODE
-           ELSE o.err = w.err
+    \/ WriteMatches(o, data, WriteWalk(Len(data), Ends(pieces), s, 0, 1, TRUE), ff)
+    \/ WriteMatches(o, data, WriteWalk(Len(data), Ends(pieces), s, 0, 1, FALSE), ff)
 
 \* The same, stated on a recorded call log only (independent of the walk above): what the
 \* writer accepted, concatenated, is a prefix of the data, all of it iff Ok; an error is the
-\* last response's error; nothing is offered after an error / Ok(0).
-\* calls: sequence of <<offered/requested, kind, n>>.
+\* last response's error (or follows an Ok(0), or is the formatter's); nothing is offered after
+\* an error.   calls: sequence of <<offered/requested, kind, n>>.
 WriteLogOK(o, data, calls, ff) ==
     LET m == Len(calls)
         acc[i \in 0..m] == IF i = 0 THEN 0 ELSE acc[i - 1] + (IF calls[i][2] = "acc" THEN calls[i][3] ELSE 0)
     IN  /\ o.buf = SubSeq(data, 1, acc[m])
-        /\ \A i \in 1..m : calls[i][2] \in {"zero", "err"} => i = m
-        /\ o.err = 0 <=> (acc[m] = Len(data) /\ ff = 0 /\ (m = 0 \/ calls[m][2] \in {"acc", "eintr"}))
+        /\ \A i \in 1..m : calls[i][2] = "err" => i = m
+        /\ o.err = 0 <=> (acc[m] = Len(data) /\ ff = 0)
         /\ (m > 0 /\ calls[m][2] = "err") => o.err = calls[m][3]
+        /\ o.err # 0 => (m > 0 /\ calls[m][2] \in {"err", "zero"}) \/ ff = 1
 
 \* The print macros (unix/print.rs): print!/println! format into __UnixWriter, whose write_str
 \* loops over write(2) on fd 1.  A recorded run r: len = bytes of the formatted text, rlen = how
@@ -235,7 +242,7 @@ WResp(m) ==
     ELSE IF ri > Len(script) THEN [kind |-> "acc", n |-> m, ri |-> ri, term |-> FALSE]
     ELSE LET it == script[ri] IN
          CASE it.t = "a"     -> [kind |-> "acc", n |-> Min(it.k, m), ri |-> ri + 1, term |-> FALSE]
-           [] it.t = "zero"  -> [kind |-> "zero", n |-> 0, ri |-> ri + 1, term |-> TRUE]
+           [] it.t = "zero"  -> [kind |-> "zero", n |-> 0, ri |-> ri + 1, term |-> FALSE]
            [] it.t = "eintr" -> [kind |-> "eintr", n |-> 0, ri |-> ri + 1, term |-> FALSE]
            [] it.t = "err"   -> [kind |-> "err", n |-> it.k, ri |-> ri + 1, term |-> TRUE]
 
